@@ -265,3 +265,6 @@ Fixpoint writev_view (pr : proto) (ps : list opacket) : Outcome unit (list opack
     do vs <- writev_view pr r;
     Ok (v :: vs)
   end.
+
+(** number of packets one batch hands to [writev] *)
+Definition batch_len (ns : list notification) : nat := length (fst (drain ns)).
